@@ -25,13 +25,15 @@
   :pattern ((go_mod a b)))))
 (define-fun imin ((a Int) (b Int)) Int (ite (<= a b) a b))
 (define-fun imax ((a Int) (b Int)) Int (ite (>= a b) a b))
-(define-sort ByteMem () (Array Int (Array Int (_ BitVec 8))))
-; el8 m s k : k-th byte of slice s in memory m (a named accessor so that quantified facts about
-; slice contents have a trigger that does not mention the slice offset)
-(declare-fun el8 (ByteMem Slice Int) (_ BitVec 8))
-(assert (forall ((m ByteMem) (s Slice) (k Int)) (! (= (el8 m s k) (select (select m (sl.base s)) (+ (sl.off s) k))) :pattern ((el8 m s k)))))
-; s_of mem base off len : the string holding the bytes of a memory window
-(declare-fun s_of ((Array Int (Array Int (_ BitVec 8))) Int Int Int) Str)
-(assert (forall ((m (Array Int (Array Int (_ BitVec 8)))) (b Int) (o Int) (n Int)) (! (=> (>= n 0) (= (s_len (s_of m b o n)) n)) :pattern ((s_of m b o n)))))
-(assert (forall ((m (Array Int (Array Int (_ BitVec 8)))) (b Int) (o Int) (n Int) (i Int)) (! (=> (and (<= 0 i) (< i n)) (= (s_at (s_of m b o n) i) (select (select m b) (+ o i)))) :pattern ((s_at (s_of m b o n) i)))))
+; ByteArr: the contents of one backing array. Spec functions over byte windows take the backing array of
+; the slice they talk about (not the whole memory), so writes to other arrays leave them unchanged.
+(define-sort ByteArr () (Array Int (_ BitVec 8)))
+; el8 a s k : k-th byte of slice s whose backing array has contents a (a named accessor so that quantified
+; facts about slice contents have a trigger that does not mention the slice offset)
+(declare-fun el8 (ByteArr Slice Int) (_ BitVec 8))
+(assert (forall ((m ByteArr) (s Slice) (k Int)) (! (= (el8 m s k) (select m (+ (sl.off s) k))) :pattern ((el8 m s k)))))
+; s_of a off len : the string holding the bytes a[off .. off+len) of one backing array
+(declare-fun s_of ((Array Int (_ BitVec 8)) Int Int) Str)
+(assert (forall ((m (Array Int (_ BitVec 8))) (o Int) (n Int)) (! (=> (>= n 0) (= (s_len (s_of m o n)) n)) :pattern ((s_of m o n)))))
+(assert (forall ((m (Array Int (_ BitVec 8))) (o Int) (n Int) (i Int)) (! (=> (and (<= 0 i) (< i n)) (= (s_at (s_of m o n) i) (select m (+ o i)))) :pattern ((s_at (s_of m o n) i)))))
 (define-fun alloc_hint_max () Int 65536)
